@@ -277,6 +277,10 @@ func (x *Exec) specIdent(sc *specScope, name string, hint types.Type) Value {
 					_ = a
 					return x.load(sc.st, x.ptrLoc(v))
 				}
+				if _, isFV := sv.(*ssa.FreeVar); isFV {
+					// a captured variable: the name denotes its current value
+					return x.load(sc.st, x.ptrLoc(v))
+				}
 				return v
 			}
 			if g, isg := sv.(*ssa.Global); isg {
